@@ -915,7 +915,13 @@ class DumbTerminalMixin:
                 error_msg='Cannot stay on the same line in dumb terminal',
             )
 
-        return input()
+        try:
+            return input()
+        except EOFError:
+            raise DeviceError(
+                error_code=Device.Error.OP_FAILED,
+                error_msg='End of input',
+            )
 
     def terminal_view_print(self, top_line, bottom_line):
         if bottom_line >= 0 or top_line >= 0:
